@@ -15,6 +15,12 @@ Inductive jop :=
 Record c11_case := { jgraph : graph; jhistory : list jop; jfailed : bool }.
 
 Definition rows_ok (g : graph) (p : list stmt) (o : outcome) : bool := agrees {| cgraph := g; cprog := p; cobs := o |}.
+(* a job whose traversal contains a window or distinct stores whichever rows the store's order made it keep; what a
+   continuation yields from those rows is then only comparable in acceptance, not in content *)
+Definition resume_ok (g : graph) (p ext : list stmt) (o : outcome) : bool :=
+  if existsb window_like p
+  then match run g (p ++ ext), o with Rejected, Rejected => true | Rows _, Rows _ => true | _, _ => false end
+  else rows_ok g (p ++ ext) o.
 Definition nrows (o : outcome) : N := match o with Rows r => N.of_nat (List.length r) | Rejected => 0%N end.
 
 (* statement equality through the printed term is not available: compare by the model's typing-relevant
@@ -61,7 +67,7 @@ Fixpoint check (g : graph) (ops : list jop) (i : nat) (t : jtable) : bool :=
           && check g r (S i) (if accepted then jstep t (ASubmit i p) else t)
       | OResume j ext rows =>
           match find (fun x => fst x =? j) t with
-          | Some (_, p) => rows_ok g (p ++ ext) rows
+          | Some (_, p) => resume_ok g p ext rows
           | None => match rows with Rejected => true | _ => false end
           end && check g r (S i) t
       | OView j found count rows =>
@@ -77,9 +83,39 @@ Fixpoint check (g : graph) (ops : list jop) (i : nat) (t : jtable) : bool :=
       | ORestart => check g r (S i) (jstep t ARestart)
       end
   end.
+Notation "a +:+ b" := (cons a b) (at level 41, right associativity, only parsing).
+Fixpoint trace (g : graph) (ops : list jop) (i : nat) (t : jtable) : list bool :=
+  match ops with
+  | [] => []
+  | op :: r =>
+      match op with
+      | OSubmit p complete count view direct =>
+          let accepted := match run g p with Rejected => false | Rows _ => true end in
+          (if accepted
+           then complete && rows_ok g p view && rows_ok g p direct && (count =? nrows view)%N
+           else match view, direct with Rejected, Rejected => true | _, _ => false end)
+          +:+ trace g r (S i) (if accepted then jstep t (ASubmit i p) else t)
+      | OResume j ext rows =>
+          match find (fun x => fst x =? j) t with
+          | Some (_, p) => resume_ok g p ext rows
+          | None => match rows with Rejected => true | _ => false end
+          end +:+ trace g r (S i) t
+      | OView j found count rows =>
+          match find (fun x => fst x =? j) t with
+          | Some (_, p) => found && rows_ok g p rows && (count =? nrows rows)%N
+          | None => negb found && match rows with Rows [] => true | Rejected => true | _ => false end
+          end +:+ trace g r (S i) t
+      | OSearch p found =>
+          let expect := map fst (filter (fun x => job_match stmt_eqb p (snd x)) t) in
+          (if list_eq_dec Nat.eq_dec expect found then true else false) +:+ trace g r (S i) t
+      | OList found => (if list_eq_dec Nat.eq_dec (map fst t) found then true else false) +:+ trace g r (S i) t
+      | ODelete j => true +:+ trace g r (S i) (jstep t (ADelete j))
+      | ORestart => true +:+ trace g r (S i) (jstep t ARestart)
+      end
+  end.
 Definition agrees11 (c : c11_case) : bool := negb (jfailed c) && check (jgraph c) (jhistory c) 0 [].
 
 Definition mismatches (cs : list c11_case) := idx_where (fun c => negb (agrees11 c)) 0 cs.
 (* the model is the specification: rows of the traversal semantics, prefix search, submitted-minus-deleted *)
 Definition spec_violations (cs : list c11_case) := idx_where (fun c => negb (agrees11 c)) 0 cs.
-Definition explain (c : c11_case) := (jfailed c, check (jgraph c) (jhistory c) 0 []).
+Definition explain (c : c11_case) := (jfailed c, trace (jgraph c) (jhistory c) 0 []).
